@@ -95,6 +95,7 @@ struct SearchCheck {
         Ctx::Case cs(ctx);
         ++searches;
         dist_t ret[3]; bool threw = false;
+        const int cost0 = objs[0]->_c1;                // number of distance evaluations so far (search-cost statistic)
         for (int o = 0; o < 3; ++o) {
           ind[o].assign(3, -7);                        // stale content must be replaced
           try { ret[o] = objs[o]->Search(pts, dist, q, ind[o], k, maxd, mind, exh != 0, tol); }
@@ -113,6 +114,7 @@ struct SearchCheck {
                   " but the original " + indstr(ind[0]) + " ret " + mc::fmt((double)ret[0]), "loaded-answer-differs", f);
         const std::vector<int>& r = ind[0];
         const size_t want = k <= 0 ? 0 : std::min<size_t>((size_t)k, adm.size());
+        ctx.sig((uint64_t)(objs[0]->_c1 - cost0) * 1000003ULL * 17);      // pruning path taken: distance evaluations of this search
         ctx.sig(shape * 31 + (uint64_t)r.size() * 7 + (r.size() == want ? 1 : 0) + (uint64_t)(adm.size() > (size_t)std::max(k, 0)) * 3 + exh * 1000003ULL);
         // indices in range and distinct
         bool ok = true; std::vector<char> seen(n, 0);
@@ -144,9 +146,16 @@ struct SearchCheck {
           // distance >= dk - tol (or is inadmissible); with fewer than k results the search is exact.
           if (r.size() > want) fail_(key(), "more results than admissible points / k", "count-tol", f);
           else if ((int)r.size() < k) {
-            if (r.size() != adm.size())
+            // documented: "If less than k results are found, then the search is exact".  Split the failure classes: a
+            // missed point within maxdist - tol is missed under every reading of the documentation; a missed point in
+            // (maxdist - tol, maxdist] contradicts only the sentence quoted.
+            bool lost_inner = false, lost_rim = false;
+            for (int i = 0; i < n; ++i) if (!seen[i] && dq[i] > mind && dq[i] <= maxd) { if (dq[i] <= maxd - tol) lost_inner = true; else lost_rim = true; }
+            if (lost_inner)
+              fail_(key(), "tol > 0: fewer than k results (" + fmti((long long)r.size()) + ") yet an admissible point at distance <= maxdist - tol was not returned", "tol-missed-short", f);
+            else if (lost_rim)
               fail_(key(), "tol > 0: fewer than k results (" + fmti((long long)r.size()) + ") but brute force has " + fmti((long long)adm.size()) +
-                    " admissible points; documented: 'If less than k results are found, then the search is exact'", "tol-inexact-short", f);
+                    " admissible points (the missing ones lie in (maxdist - tol, maxdist]); documented: 'If less than k results are found, then the search is exact'", "tol-inexact-short", f);
           } else if (sorted && admissible && !r.empty()) {
             dist_t dk = dq[r.back()];
             for (int i = 0; i < n; ++i)
